@@ -4,8 +4,8 @@
 //! generated VRPs (equal, inside, at max-len -1/=/+1, covering, sibling, other family) so that
 //! the interesting relations are the common case. Observed through `RouteValidity`, the request
 //! list readers/writers used by the `validate` command, both GET endpoints of the real HTTP
-//! dispatcher, the batch POST endpoint over a loopback listener and the `validate` command run
-//! in-process through `Operation::run`.
+//! dispatcher, the batch POST endpoint over a loopback listener and the `validate` command line run
+//! in a child process (`rvchild routinator …`, the steps of routinator's main.rs).
 
 use std::net::{IpAddr, Ipv4Addr, Ipv6Addr, SocketAddr};
 use std::sync::Arc;
@@ -455,7 +455,6 @@ fn prop_post(env: &Env, served: &Served, addr: SocketAddr, case: &Case, info: &m
 /// Leg E: the `validate` command, in-process through clap → `Operation::run`, VRPs from a local
 /// exceptions file, no trust anchors, no network.
 fn prop_cli(env: &Env, case: &Case, info: &mut CaseInfo) -> Verdict {
-    use routinator::{Config, Operation};
     let vrps = dedup(&case.vrps);
     let routes = routes_of(case, &vrps, info);
     if routes.is_empty() {
@@ -501,23 +500,11 @@ fn prop_cli(env: &Env, case: &Case, info: &mut CaseInfo) -> Verdict {
     } else {
         args.extend(["-i".into(), s(p("in"))]);
     }
-    std::fs::write(p("none.conf"), "").unwrap();
-    let app = Operation::config_args(Config::config_args(clap::Command::new("routinator")));
-    let matches = match app.try_get_matches_from(&args) {
-        Ok(m) => m,
-        Err(e) => return Verdict::Dropped(format!("cli_args_rejected:{}", e.kind())),
-    };
-    let mut config = match Config::from_arg_matches(&matches, dir.path()) {
-        Ok(c) => c,
-        Err(_) => return Verdict::Dropped("cli_config_failed".into()),
-    };
-    let op = match Operation::from_arg_matches(&matches, dir.path(), &mut config) {
-        Ok(o) => o,
-        Err(_) => return Verdict::Dropped("cli_operation_failed".into()),
-    };
-    if op.run(config).is_err() {
+    std::fs::write(p("none.conf"), format!("repository-dir = {:?}\n", s(p("cache")))).unwrap();
+    let (code, _stdout, stderr) = run_routinator(&args[1..], dir.path());
+    if code != Some(0) {
         let log = std::fs::read_to_string(p("log")).unwrap_or_default();
-        return Verdict::fail("C20/cli/exit-status", format!("validate failed for a well-formed request: {}", truncate(&log, 800)));
+        return Verdict::fail("C20/cli/exit-status", format!("validate exited with {:?} for a well-formed request: {} {}", code, truncate(&log, 600), truncate(&String::from_utf8_lossy(&stderr), 600)));
     }
     let out = std::fs::read(p("out")).unwrap_or_default();
     if json {
@@ -614,10 +601,10 @@ fn selftest() -> Result<(), String> {
 
 pub fn run(ctx: &Ctx, rep: &mut Report, replay: Option<&serde_json::Value>) {
     rep.rule(
-        "VRP sets of 0..=30 entries (seeds from a small address pool plus VRPs derived from them: other AS / max-len, more and less specific) and 1..=12 routes derived from the VRPs (equal, inside, at max-len-1/=/+1, covering, sibling, other family, unrelated; AS equal / another VRP's / 0 / +1 / random), judged by an own u128 cover test; legs: RouteValidity::new, request-list plain+JSON readers and writers, GET /api/v1/validity/AS/prefix and /validity?asn&prefix through the real dispatcher, POST /validity over a loopback listener, the validate command in-process; non-trivial = route covered by >=2 VRPs with different verdicts; distinct by serialised case",
+        "VRP sets of 0..=30 entries (seeds from a small address pool plus VRPs derived from them: other AS / max-len, more and less specific) and 1..=12 routes derived from the VRPs (equal, inside, at max-len-1/=/+1, covering, sibling, other family, unrelated; AS equal / another VRP's / 0 / +1 / random), judged by an own u128 cover test; legs: RouteValidity::new, request-list plain+JSON readers and writers, GET /api/v1/validity/AS/prefix and /validity?asn&prefix through the real dispatcher, POST /validity over a loopback listener, the validate command line in a child process; non-trivial = route covered by >=2 VRPs with different verdicts; distinct by serialised case",
     );
     rep.assume("a VRP that fails both the AS and the length test may be reported in either unmatched list (the property only demands a partition); reason must agree with the reported lists; 'description' is not judged");
-    rep.assume("the validate command is run in-process (clap parsing, Config, Operation::run) with VRPs supplied by a local-exceptions file and no trust anchors");
+    rep.assume("the validate command line is run in a child process that performs the steps of routinator's main.rs (Operation::prepare, clap parsing, Config, Operation::run) with VRPs supplied by a local-exceptions file and no trust anchors");
     if let Err(e) = selftest() {
         eprintln!("C20 preamble failed: {}", e);
         std::process::exit(2);
@@ -668,10 +655,7 @@ pub fn run(ctx: &Ctx, rep: &mut Report, replay: Option<&serde_json::Value>) {
                 });
                 run_case(ctx, rep, "post", &t.case, |c, i| prop_post(&env, &served, addr, c, i))
             }
-            "cli" => {
-                let _ = routinator::Operation::prepare();
-                run_case(ctx, rep, "cli", &t.case, |c, i| prop_cli(&env, c, i))
-            }
+            "cli" => run_case(ctx, rep, "cli", &t.case, |c, i| prop_cli(&env, c, i)),
             other => panic!("unknown sub {}", other),
         }
         return;
@@ -684,10 +668,6 @@ pub fn run(ctx: &Ctx, rep: &mut Report, replay: Option<&serde_json::Value>) {
             eprintln!("C20: cannot start loopback listener");
             std::process::exit(2);
         }
-    }
-    if routinator::Operation::prepare().is_err() {
-        eprintln!("C20: Operation::prepare failed");
-        std::process::exit(2);
     }
     run_prop(ctx, rep, "cli", ctx.tier.pick(24, 400), case_strategy(6), |c, i| prop_cli(&env, c, i));
 }
